@@ -97,6 +97,7 @@ type c03Cfg struct {
 	threads [][]c03Event
 	zone    *time.Location // the process's local zone (default UTC)
 	maxAge  string         // retention of the rolling appender in hours (default 24)
+	level   string         // rolling-logger sinks: the logger's level; fanout: the level of both appender references ("" = not set)
 }
 
 func (c c03Cfg) start() time.Time {
@@ -145,6 +146,22 @@ func (c c03Cfg) config() map[string]string {
 		m["logger.root.maxAge"] = "24"
 		m["logger.root.separate"] = fmt.Sprint(c.sink == "rolling-logger+separate")
 		m["logger.root.layout.type"] = c.layout
+		if c.level != "" {
+			m["logger.root.level"] = c.level
+		}
+	case "two-widths":
+		// two appenders with their own layouts of different file:line widths (a narrow console column, a wide file column)
+		m["appender.out.type"] = "Console"
+		m["appender.out.layout.type"] = c.layout
+		m["appender.out.layout.fileLineLength"] = "12"
+		m["appender.f.type"] = "File"
+		m["appender.f.fileDir"] = "/logs"
+		m["appender.f.fileName"] = "app.log"
+		m["appender.f.layout.type"] = c.layout
+		m["appender.f.layout.fileLineLength"] = "64"
+		m["logger.root.type"] = "Logger"
+		m["logger.root.appenderRef[0].ref"] = "out"
+		m["logger.root.appenderRef[1].ref"] = "f"
 	case "fanout":
 		// logger-level layout: one ToBytes, the same slice is handed to two appenders
 		m["appender.out.type"] = "Console"
@@ -155,6 +172,10 @@ func (c c03Cfg) config() map[string]string {
 		m["logger.root.layout.type"] = c.layout
 		m["logger.root.appenderRef[0].ref"] = "out"
 		m["logger.root.appenderRef[1].ref"] = "f"
+		if c.level != "" {
+			m["logger.root.appenderRef[0].level"] = c.level
+			m["logger.root.appenderRef[1].level"] = c.level
+		}
 	}
 	return m
 }
@@ -256,7 +277,7 @@ func multisetDiff(got, want []string) string {
 
 func c03Scenario(c c03Cfg, b zzvrt.Bounds) *zzvrt.Scenario {
 	// reference: every event formatted ALONE - its own run from a freshly reset package, by the same path
-	var wantLines []string
+	var wantLines, wantFileLines []string
 	for _, t := range c.threads {
 		for _, ev := range t {
 			var ref c03Obs
@@ -268,6 +289,11 @@ func c03Scenario(c c03Cfg, b zzvrt.Bounds) *zzvrt.Scenario {
 			switch c.sink {
 			case "console", "builtin", "fanout":
 				wantLines = append(wantLines, ref.console...)
+			case "two-widths":
+				wantLines = append(wantLines, ref.console...)
+				for _, w := range ref.files {
+					wantFileLines = append(wantFileLines, w...)
+				}
 			default:
 				for _, w := range ref.files {
 					wantLines = append(wantLines, w...)
@@ -291,7 +317,38 @@ func c03Scenario(c c03Cfg, b zzvrt.Bounds) *zzvrt.Scenario {
 				return obs.err, []zzvrt.Violation{{Clause: "setup", Key: key, Detail: obs.err}}
 			}
 			var sb strings.Builder
-			if c.sink == "console" || c.sink == "builtin" || c.sink == "fanout" {
+			if c.sink == "two-widths" {
+				// the reference shares the process-wide state an implementation may keep per call site, so the column is
+				// also checked absolutely: at most the configured width, shortened ("...") only when it fills the width
+				col := func(where, l string, width int) {
+					tok := ""
+					if c.layout == "JSONLayout" {
+						if j := strings.Index(l, `"fileLine":"`); j >= 0 {
+							tok = l[j+12:]
+							if e := strings.IndexByte(tok, '"'); e >= 0 {
+								tok = tok[:e]
+							}
+						}
+					} else if ps := strings.SplitN(l, "][", 3); len(ps) == 3 {
+						tok = ps[2]
+						if e := strings.IndexByte(tok, ']'); e >= 0 {
+							tok = tok[:e]
+						}
+					}
+					if len(tok) > width || (strings.HasPrefix(tok, "...") && len(tok) != width) || tok == "" {
+						v = append(v, zzvrt.Violation{Clause: "file-line-column", Key: key, Detail: fmt.Sprintf("%s (fileLineLength=%d) carries the file:line column %q: %q", where, width, tok, l)})
+					}
+				}
+				for _, l := range obs.console {
+					col("console", l, 12)
+				}
+				for _, ws := range obs.files {
+					for _, l := range ws {
+						col("file", l, 64)
+					}
+				}
+			}
+			if c.sink == "console" || c.sink == "builtin" || c.sink == "fanout" || c.sink == "two-widths" {
 				if d := multisetDiff(obs.console, wantLines); d != "" {
 					v = append(v, zzvrt.Violation{Clause: "console-lines", Key: key, Detail: d})
 				}
@@ -310,6 +367,10 @@ func c03Scenario(c c03Cfg, b zzvrt.Bounds) *zzvrt.Scenario {
 							content = append(content, l)
 						}
 					}
+				}
+				wantLines := wantLines
+				if c.sink == "two-widths" {
+					wantLines = wantFileLines
 				}
 				if d := multisetDiff(writes, wantLines); d != "" {
 					v = append(v, zzvrt.Violation{Clause: "file-writes", Key: key, Detail: d})
@@ -345,7 +406,7 @@ func init() {
 		"3x1":     {{ev(0, 0, false)}, {ev(1, 1, false)}, {ev(2, 2, true)}},
 	}
 	for _, layout := range []string{"TextLayout", "JSONLayout"} {
-		for _, sink := range []string{"console", "file", "rolling", "fanout", "builtin"} {
+		for _, sink := range []string{"console", "file", "rolling", "fanout", "builtin", "two-widths"} {
 			if sink == "builtin" && layout == "JSONLayout" {
 				continue
 			}
